@@ -23,6 +23,9 @@ PATCHES = {
    "func (w waitReason) isIdleInSynctest() bool {\n\t// verif: in simulation every lock holder lives in the bubble, so a goroutine\n\t// parked on a mutex is durably blocked; otherwise virtual time could not\n\t// advance while a lock holder waits for a timer (yamux holds a lock across a\n\t// timed send).\n\tif simSchedState != 0 && (w == waitReasonSyncMutexLock || w == waitReasonSyncRWMutexRLock || w == waitReasonSyncRWMutexLock) {\n\t\treturn true\n\t}\n\treturn isIdleInSynctest[w]\n}\n"),
   ("\tbubble  *synctestBubble\n", "\tbubble  *synctestBubble\n\tsimTag  uint64 // verif: simulated host of this goroutine, inherited by children\n"),
  ],
+ "src/runtime/synctest.go": [
+  ("\t\tbubble.now = next\n\t}\n", "\t\tsimIdleLoopCheck(next)\n\t\tbubble.now = next\n\t}\n"),
+ ],
  "src/runtime/select.go": [
   ("\t\tj := cheaprandn(uint32(norder + 1))", "\t\tj := simSelectRandn(uint32(norder + 1))"),
  ],
